@@ -24,7 +24,7 @@ const ruleC19 = "stateful: histories of <= 10 (thorough <= 30) Parse calls drawn
 var c19Paths = []string{
 	// valid
 	"$", "$.a", "$.a.f1()", "$.*.f1()", "$.a.g1()", "$.*.g1()", "$[?(@.f1())]", "$[?(@.a.f1() == 1)]", "$..a", "$[0,1]", "$['a','b']",
-	"$[?(@.a > 1 && $.b)]", "$[?(@.a == 'x' || !@.b)]", "$.a[0:2].f1()", "$[?($.a.g1() == 2)]", "$..[?(@.a)].a", "a.b", "$[*,*]", "$.f1()", "$.g1().f1()",
+	"$[?(@.a > 1 && $.b)]", "[?(@.a)].a", "[?(@.a == 1)]", "[?(@.b)]..a", "[?(@.a)]", "[0][?(@.a)]", "$[?(@.a == 'x' || !@.b)]", "$.a[0:2].f1()", "$[?($.a.g1() == 2)]", "$..[?(@.a)].a", "a.b", "$[*,*]", "$.f1()", "$.g1().f1()",
 	// failing at each action
 	"$[99999999999999999999]", "$.a[0:99999999999999999999]", "$.a[0,1:99999999999999999999].b", "$[?(@.a == 1e400)]", "$[?($.a.f1() == 1e400)]",
 	"$[?(@.a =~ /[/)]", "$.a[?(@.b =~ /(/ && @.c)]", "$['a\tb']", "$.a[\"b\tc\"].d", "$.a.zz()", "$.a.f1().zz()", "$.zz().f1()", "$[?(@.a == 1 && @.zz())]",
